@@ -39,7 +39,8 @@ Inductive eff :=
 | EDropRel          (* .rel drop t         *)
 | EAddRule (m : N)  (* +r<m>(X) <- t(X)    *)
 | EDelRule (m : N)  (* -r<m> / .rule drop r<m> *)
-| EAddSchema (m : N). (* +s<m>(a: int)     *)
+| EAddSchema (m : N) (* +s<m>(a: int)     *)
+| EDescribe.        (* .rel t : no stored effect; ends in the query path when t exists *)
 
 Record stmt := St {
   kind : stmt_kind;
@@ -214,6 +215,7 @@ Definition apply_eff (e : eff) (ms : list mark) : list mark :=
   | EAddRule m => add_mark (MR m) ms
   | EDelRule m => remove_mark (MR m) ms
   | EAddSchema m => add_mark (MS m) ms
+  | EDescribe => ms
   end.
 
 (* does the statement's message contain the word "dropped" (execute_program looks for it) *)
@@ -240,7 +242,7 @@ Definition step_class (k : stmt_kind) : kclass :=
   | MKgUse => KUse
   | MKgCreate => KCreate
   | MKgDrop => KDrop
-  | SQuery => KQuery
+  | SQuery | MRuleQuery => KQuery      (* `.rule show <name>` is delegated to the query path *)
   | _ => KOther
   end.
 
@@ -272,7 +274,10 @@ Definition step (st : rstate) (s : stmt) : rstate :=
   | KQuery, _ => RState kgs cur (r_switched st) true (r_dropmsg st) tr
   | KOther, _ =>
       let says := match lookup cur kgs with Some ms => eff_says_dropped (seff s) ms | None => false end in
-      RState (update cur (apply_eff (seff s)) kgs) cur (r_switched st) (r_query st)
+      (* `.rel describe t` of an existing relation also ends in the query path *)
+      let descr := match seff s with EDescribe => true | _ => false end &&
+                   match lookup cur kgs with Some ms => has_mark MT ms | None => false end in
+      RState (update cur (apply_eff (seff s)) kgs) cur (r_switched st) (r_query st || descr)
              (r_dropmsg st || says) tr
   end.
 
@@ -404,7 +409,7 @@ Definition handle_pinned := handle_with authorize_pinned.
 (* ---------------------------------------------------------------- well-formed inputs *)
 (* a statement has an effect on stored state only if its kind is classified as mutating
    and is one that acts on the current knowledge graph *)
-Definition eff_is_none (e : eff) : bool := match e with ENone => true | _ => false end.
+Definition eff_is_none (e : eff) : bool := match e with ENone | EDescribe => true | _ => false end.
 Definition acts_on_current (k : stmt_kind) : bool :=
   match target_class k, step_class k with TCurrent, KOther => true | _, _ => false end.
 Definition wf_stmt (s : stmt) : bool :=
